@@ -71,6 +71,10 @@ def gen_case(r, big):
                 hole = True
         elif k < 0.6:
             dt = max(1, r.choice([L, L // 2, L - 1, L + 1, 2 * L, 10 * MS, 50 * MS, 1]) + r.choice([0, 0, 1, -1, 1000]))
+            live = [e for e in alive.values() if e > now]
+            if live and r.random() < 0.3:
+                # exactly to (or 1 ns around) the expiry of the oldest live change
+                dt = max(1, min(live) - now + r.choice([0, 0, -1, 1]))
             ops.append(("adv", dt))
             now += dt
         elif k < 0.8:
@@ -122,6 +126,8 @@ def corpus():
         (L, 1, False, (("w", 1, None), ("net",), ("adv", L), ("r",), ("adv", 1), ("t",))),
         # late joiner: the expired part of the history is not sent, the rest is
         (L, 1, True, (("w", 1, None), ("adv", 120 * MS), ("w", 2, None), ("adv", 100 * MS), ("join",), ("t",))),
+        # late joiner exactly at the expiry of sample 1 (1 ns before the expiry of sample 2)
+        (L, 1, True, (("w", 1, None), ("w", 2, T0 + 100 * MS + 1), ("adv", L), ("join",), ("t",))),
         # expired at write / exactly at the boundary
         (L, 0, False, (("w", 1, T0 + 100 * MS - L + 1), ("w", 2, T0 + 100 * MS - L), ("net",), ("t",))),
     ]
